@@ -353,8 +353,11 @@ func c02DurableAppend(c *Ctx, rule string) {
 					return Cut
 				}
 			}
-			if r, isRet := nn.(*ast.ReturnStmt); isRet && g.ReturnMayBeNil(r) {
-				return Hit
+			if r, isRet := nn.(*ast.ReturnStmt); isRet {
+				if g.ReturnMayBeNil(r) {
+					return Hit
+				}
+				return Cut // an error return ends the path
 			}
 			return Go
 		}, func(b *cfg.Block) Verdict {
@@ -656,8 +659,8 @@ func isFieldOf(f *Func, e ast.Expr, obj types.Object, field string) bool {
 }
 
 type lsnCmp struct {
-	op        token.Token // normalised: record OP page
-	be        *ast.BinaryExpr
+	op token.Token // normalised: record OP page
+	be *ast.BinaryExpr
 }
 
 // lsnComparison recognises a comparison between <row>.LSN and <x>.getLastLSN() (either order).
